@@ -189,6 +189,21 @@ def step (st : St) (line : String) : St × List String :=
       let pr := Server.parse c.proto (unhex cmdHex)
       match pr.cmd with
       | none => (st, ["oracle skip unparsed"])
+      | some (.getE _) =>
+        -- get-with-expiry is served by the L1-only orchestrator alone; the two-tier orchestrators
+        -- refuse it by design (outside the specification's commands there)
+        if c.orca != .l1only then (st, ["oracle skip gete-on-two-tier"]) else
+        -- … and the chunking handler panics on it, deliberately ("GetE not supported in Rend chunked mode")
+        if c.l1 == "chunked" then (st, ["oracle skip gete-on-chunked"]) else
+        let cmd := (pr.cmd.getD .unknown)
+        let (spec', exp) := Spec.step st.now st.spec cmd
+        let st' := { st with spec := spec' }
+        let out := unhex outHex
+        let verdict : String :=
+          match Wire.decodeBin out with
+          | none => "MISMATCH undecodable-reply"
+          | some fs => if Wire.binMatches cmd exp fs then "ok" else s!"MISMATCH expected {soutStr exp}"
+        (st', [("oracle " ++ verdict).replace "\n" " "])
       | some cmd =>
         let (spec', exp) := Spec.step st.now st.spec cmd
         let st' := { st with spec := spec' }
